@@ -17,6 +17,6 @@ one() {
   rm -f "/var/tmp/regress-$n.log"
 }
 export -f one; export SEED HERE
-ls -d "$HERE"/seeded/$GLOB/ | xargs -P "$PAR" -I{} bash -c 'one {}' | tee "$OUT.tmp"
+ls -d "$HERE"/seeded/C[0-9][0-9]-$GLOB/ | xargs -P "$PAR" -I{} bash -c 'one {}' | tee "$OUT.tmp"
 sort "$OUT.tmp" > "$OUT"; rm -f "$OUT.tmp"
 echo "caught: $(grep -c ' caught ' "$OUT")  missed: $(grep -c ' MISSED ' "$OUT")  other: $(grep -c ' other' "$OUT")"
